@@ -683,8 +683,11 @@ func init() {
 		runSubScenario(c, "c07-queued-on-mutex",
 			"a Serve call and a Shutdown call queue on the server's mutex (held through the verif hook VerifHoldServer) and get it in either order",
 			"once Shutdown has been requested every later Serve call returns ErrServerShutdown; Shutdown returns nil only after every Serve call has returned")
+		runSubScenario(c, "c07-close-error",
+			"two Serve calls on two listeners, the Close of one of them reports an error; Shutdown(Background), then a second Shutdown",
+			"Shutdown closes every registered listener and cancels the request contexts; it returns the caller's context error only if that context ended")
 		c.Trivial("no-shutdown")
 		c.Flush()
-		c.RequireTags("with-shutdown", "directed", "shutdown-in-register-window", "c07-queued-on-mutex", "c07-received-before-shutdown", "c07-shared-listener", "c07-plain-close-error", "c07-serve-ended-on-read-error")
+		c.RequireTags("with-shutdown", "directed", "shutdown-in-register-window", "c07-queued-on-mutex", "c07-close-error", "c07-received-before-shutdown", "c07-shared-listener", "c07-plain-close-error", "c07-serve-ended-on-read-error")
 	}
 }
